@@ -144,7 +144,7 @@ func (env *Env) eval(x Expr) V {
 		if e.Hi != nil {
 			hi = fc.toInt64(env.constTo(env.eval(e.Hi), types.Typ[types.Int]))
 		}
-		return V{Ty: b.Ty, T: []string{b.T[0], add64(b.T[1], lo), sub64(hi, lo), sub64(b.T[3], lo)}}
+		return V{Ty: b.Ty, T: []string{b.T[0], add64(b.T[1], lo), sub64(hi, lo), sub64(b.T[3], lo)}, Mem: b.Mem}
 	case *ESel:
 		return env.selector(e)
 	case *EQuant:
@@ -183,6 +183,11 @@ func (env *Env) indexV(b V, i string) V {
 		idx := add64(b.T[1], i)
 		if idxProbe != nil {
 			idxProbe(idx)
+		}
+		if b.Mem != "" {
+			cs := fc.e.comps(et)
+			arr := fc.heapGet(env.cur, b.Mem+"."+cs[0].Suf, memSort(cs[0].Sort))
+			return V{Ty: et, T: []string{sx("select", sx("select", arr, b.T[0]), idx)}}
 		}
 		return fc.load(env.cur, &Loc{Kind: locElem, Ref: b.T[0], Idx: idx, Ty: et})
 	case isString(b.Ty):
@@ -668,6 +673,11 @@ func (env *Env) callExpr(e *ECall) V {
 		argc(2)
 		a, b := env.eval(e.Args[0]), env.eval(e.Args[1])
 		return boolV(and(eq(a.T[0], b.T[0]), not(eq(a.T[0], "0"))))
+	case "prefixof":
+		// r starts where s starts and fits into s's capacity
+		argc(2)
+		a, b := env.eval(e.Args[0]), env.eval(e.Args[1])
+		return boolV(and(eq(a.T[0], b.T[0]), not(eq(a.T[0], "0")), eq(a.T[1], b.T[1]), sx("bvsle", a.T[2], b.T[3])))
 	case "sameslice":
 		argc(2)
 		a, b := env.eval(e.Args[0]), env.eval(e.Args[1])
@@ -763,9 +773,23 @@ func (env *Env) callExpr(e *ECall) V {
 	if g, ok := fc.e.specs.Ghosts[name]; ok {
 		argc(1)
 		o := env.eval(e.Args[0])
-		key, srt, id, rt := env.ghostKey(g, o)
-		arr := fc.heapGet(env.cur, key, fieldSort(srt))
-		return V{Ty: rt, T: []string{sx("select", arr, id)}}
+		keys, srts, id, rt := env.ghostKeys(g, o)
+		out := V{Ty: rt, Mem: g.Mem}
+		for k := range keys {
+			arr := fc.heapGet(env.cur, keys[k], fieldSort(srts[k]))
+			out.T = append(out.T, sx("select", arr, id))
+		}
+		if isSlice(rt) && !strings.Contains(strings.Join(out.T, " "), "|q") {
+			// a slice-valued ghost is a well-formed slice (numeric part of the type invariant)
+			key := "ghostwf:" + strings.Join(out.T, ",")
+			if !fc.declared[key] {
+				fc.declared[key] = true
+				b, o, l, c := out.T[0], out.T[1], out.T[2], out.T[3]
+				fc.assumeGlobal(and(sx(">=", b, "0"), sx("bvsle", bvLit(0, 64), l), sx("bvsle", l, c), sx("bvsle", bvLit(0, 64), o),
+					sx("bvult", c, bvLit(1<<46, 64)), sx("bvult", o, bvLit(1<<46, 64))))
+			}
+		}
+		return out
 	}
 	// spec function (macro) or uninterpreted function
 	if f, ok := fc.e.specs.Funs[name]; ok {
@@ -937,26 +961,25 @@ func (env *Env) specType(name string) types.Type {
 	return t
 }
 
-// ghostKey: heap key, sort, object id and result type of a ghost function application.
-func (env *Env) ghostKey(g *GhostFun, o V) (key, srt, id string, rt types.Type) {
+// ghostKeys: heap keys (one per result component), sorts, object id and result type of a ghost function application.
+func (env *Env) ghostKeys(g *GhostFun, o V) (keys, srts []string, id string, rt types.Type) {
 	fc := env.fc
 	rt = env.specType(g.Ret)
-	cs := fc.e.comps(rt)
-	if len(cs) != 1 {
-		panic(specErr("ghost %s must have a single-component result", g.Name))
-	}
-	srt = cs[0].Sort
-	key = "ghost:" + g.Name
+	base := "ghost:" + g.Name
 	switch {
 	case isIface(o.Ty):
 		id = o.T[1]
 	case isSlice(o.Ty), isPointer(o.Ty), isMap(o.Ty), o.Ty != nil && len(o.T) == 1:
 		id = o.T[0]
 		if o.Loc != nil && o.Loc.Kind == locField && o.Loc.Pre != "" {
-			key += "@" + o.Loc.S + "." + o.Loc.Pre
+			base += "@" + o.Loc.S + "." + o.Loc.Pre
 		}
 	default:
 		panic(specErr("ghost %s applied to %v", g.Name, o.Ty))
+	}
+	for _, c := range fc.e.comps(rt) {
+		keys = append(keys, base+"."+c.Suf)
+		srts = append(srts, c.Sort)
 	}
 	return
 }
@@ -1078,9 +1101,25 @@ func (env *Env) resolveTarget(text string) []modTarget {
 	case *ECall:
 		if id, ok := e.Fun.(*EIdent); ok {
 			if g, ok := fc.e.specs.Ghosts[id.Name]; ok {
+				if a, ok := e.Args[0].(*EIdent); ok && a.Name == "any" {
+					// the ghost field of every object (state owned by a pool, invisible to callers)
+					rt := env.specType(g.Ret)
+					mt := modTarget{kind: "ghostall", ref: "0"}
+					for _, c := range fc.e.comps(rt) {
+						mt.keys = append(mt.keys, "ghost:"+g.Name+"."+c.Suf)
+						mt.sorts = append(mt.sorts, c.Sort)
+					}
+					return []modTarget{mt}
+				}
 				o := env.withState(env.old, func() V { return env.eval(e.Args[0]) })
-				key, srt, oid, _ := env.ghostKey(g, o)
-				return []modTarget{{kind: "ghost", keys: []string{key}, sorts: []string{srt}, ref: oid}}
+				keys, srts, oid, _ := env.ghostKeys(g, o)
+				return []modTarget{{kind: "ghost", keys: keys, sorts: srts, ref: oid}}
+			}
+			if id.Name == "bytes" {
+				if a, ok := e.Args[0].(*EIdent); ok && a.Name == "any" {
+					// byte memory owned by a buffer pool: may be overwritten (callers must not hold views into it)
+					return []modTarget{{kind: "memall", keys: []string{"M:bv8."}, sorts: []string{sBV(8)}, ref: "0"}}
+				}
 			}
 			if id.Name == "mapof" {
 				m := env.withState(env.old, func() V { return env.eval(e.Args[0]) })
@@ -1128,6 +1167,16 @@ func (fc *FnCtx) havocTargetX(env *Env, old *State, text string, pos token.Pos, 
 		}
 		for i, key := range mt.keys {
 			switch mt.kind {
+			case "memall":
+				srt := memSort(mt.sorts[i])
+				fc.heapGet(fc.cur, key, srt)
+				fc.cur.heap[key] = fc.fresh("hvmem", srt)
+				fc.cur.hac[key] = fc.cur.ac
+			case "ghostall":
+				srt := fieldSort(mt.sorts[i])
+				fc.heapGet(fc.cur, key, srt)
+				fc.cur.heap[key] = fc.fresh("hvall", srt)
+				fc.cur.hac[key] = fc.cur.ac
 			case "field", "ghost":
 				srt := fieldSort(mt.sorts[i])
 				arr := fc.heapGet(fc.cur, key, srt)
@@ -1205,6 +1254,8 @@ func (fc *FnCtx) frameGoalF(fs frameSpec, key, ref, idx string) string {
 				continue
 			}
 			switch t.kind {
+			case "ghostall", "memall":
+				alts = append(alts, "true")
 			case "field", "ghost", "map":
 				alts = append(alts, eq(ref, t.ref))
 			case "mem":
@@ -1269,6 +1320,9 @@ func (fc *FnCtx) frameCheckMemN(b V, n string, pos token.Pos) {
 		alts := []string{sx(">=", b.T[0], fs.ac), eq(n, bvLit(0, 64))}
 		for _, t := range fs.targets {
 			for _, k := range t.keys {
+				if k == key && t.kind == "memall" {
+					alts = append(alts, "true")
+				}
 				if k == key && t.kind == "mem" {
 					alts = append(alts, and(eq(b.T[0], t.ref), sx("bvule", t.lo, b.T[1]), sx("bvule", add64(b.T[1], n), t.hi)))
 				}
@@ -1288,6 +1342,9 @@ func (fc *FnCtx) frameCheckTarget(mt modTarget, pos token.Pos, text string) {
 			alts := []string{sx(">=", mt.ref, fs.ac), sx("bvuge", mt.lo, mt.hi)}
 			for _, t := range fs.targets {
 				for _, k := range t.keys {
+					if k == mt.keys[0] && t.kind == "memall" {
+						alts = append(alts, "true")
+					}
 					if k == mt.keys[0] && t.kind == "mem" {
 						alts = append(alts, and(eq(mt.ref, t.ref), sx("bvule", t.lo, mt.lo), sx("bvule", mt.hi, t.hi)))
 					}
